@@ -1,6 +1,7 @@
 (* C08 model driver: `open C08_m`, conv.inc and Common are prepended by bin/build_driver.
    Case grammar: see checks/C08.py.  One line = one object (made by one of the constructors) + a list of operations; Set_Prefactor / Multiply change the
-   object, every query runs on (a copy of) the current object with a fresh search state. *)
+   object, every query runs on (a copy of) the current object with a fresh search state.
+   Sessions (s1 r1 s2 r2): several objects in the store of C08_Model.v.  Long tables (b1 k1): walked window by window. *)
 open Common
 exception Stop of string
 let unres = function Ok v -> v | Exit -> raise (Stop "EXIT") | OOB -> raise (Stop "OOB") | Fuel -> raise (Stop "FUEL")
@@ -9,11 +10,10 @@ let fops = { fops with npowi = (fun x k -> if int_of_z k = 2 then x *. x else fo
 let scaled dim l = if dim > 0.0 then List.map (fun v -> v *. dim) l else l
 let g3 = [0.5 -. sqrt 0.6 /. 2.0; 0.5; 0.5 +. sqrt 0.6 /. 2.0]
 
-let run1 r o xa =
+(* one operation w of a 1-D case on the object !o (xa = its abscissae after the unit scaling) *)
+let op1 r o xa w =
   let f x = unres (interpolate fops !o x) in
-  let nq = integer r in
-  for _ = 1 to nq do
-    match word r with
+    match w with
     | "P" -> let c = num r in o := set_prefactor !o c
     | "X" -> let c = num r in o := multiply fops !o c
     | "I" -> put_f (f (num r))
@@ -49,12 +49,13 @@ let run1 r o xa =
         put_f (unres (integrate fops !o a (x +. d))); put_f (unres (integrate fops !o a (x -. d)));
         put_f (f x); put_f (unres (derivative fops !o x (z_of_int 2)))
     | q -> failwith ("unknown op " ^ q)
-  done
 
-let run2 r o xa ya =
+let run1 r o xa =
   let nq = integer r in
-  for _ = 1 to nq do
-    match word r with
+  for _ = 1 to nq do op1 r o xa (word r) done
+
+let op2 r o xa ya w =
+    match w with
     | "P" -> let c = num r in o := set_prefactor2 !o c
     | "X" -> let c = num r in o := multiply2 fops !o c
     | "I" -> let x = num r in let y = num r in put_f (unres (interpolate2 fops !o x y))
@@ -72,7 +73,167 @@ let run2 r o xa ya =
         done;
         put_f (unres (interpolate2 fops !o (x0 -. 0.5 *. (1e-2 *. (xa.(1) -. xa.(0)))) y0))
     | q -> failwith ("unknown op " ^ q)
+
+let run2 r o xa ya =
+  let nq = integer r in
+  for _ = 1 to nq do op2 r o xa ya (word r) done
+
+(* ---- several objects in one program: the store of C08_Model.v (lstep); mk mn -> LPut, cp cc vec val -> LCopy, mv -> LMove, rm -> LDrop, sw -> LSwap.
+   make.(t) () constructs the object of table t; opq = op1 / op2 on a reference to the current object; aux.(t) = the abscissae of table t *)
+let session r (make : (unit -> 'o) array) (aux : 'x array) (opq : reader -> 'o ref -> 'x -> string -> unit) =
+  let ns = integer r in
+  let st = ref (List.init ns (fun _ -> None)) in
+  let tab = Array.make ns (-1) in
+  let cur = ref 0 in
+  let nq = integer r in
+  for _ = 1 to nq do
+    let w = word r in
+    match w with
+    | "at" -> cur := integer r
+    | "mk" | "mn" -> let k = integer r in let t = integer r in
+        st := lstep !st (LPut (nat_of_int k, make.(t) ())); tab.(k) <- t
+    | "cp" | "cc" | "val" -> let k = integer r in let j = integer r in
+        st := lstep !st (LCopy (nat_of_int k, nat_of_int j)); tab.(k) <- tab.(j)
+    | "vec" -> let k = integer r in let j = integer r in let _ = integer r in
+        st := lstep !st (LCopy (nat_of_int k, nat_of_int j)); tab.(k) <- tab.(j)
+    | "mv" -> let k = integer r in let j = integer r in
+        st := lstep !st (LMove (nat_of_int k, nat_of_int j)); tab.(k) <- tab.(j); tab.(j) <- (-1)
+    | "rm" -> let k = integer r in st := lstep !st (LDrop (nat_of_int k)); tab.(k) <- (-1)
+    | "sw" -> let k = integer r in let j = integer r in
+        st := lstep !st (LSwap (nat_of_int k, nat_of_int j));
+        let t = tab.(k) in tab.(k) <- tab.(j); tab.(j) <- t
+    | _ ->
+        (match st_get !st (nat_of_int !cur) with
+         | None -> raise (Stop "MODELERR query_on_an_empty_slot")
+         | Some ob ->
+             let o = ref ob in
+             opq r o aux.(tab.(!cur)) w;
+             if w = "P" || w = "X" then st := lstep !st (LPut (nat_of_int !cur, !o)))
   done
+
+(* ---- long tables given by rule (the same integers scaled by powers of two as in harness/C08.cpp and checks/C08.py) *)
+let rule_table r =
+  let n = integer r in
+  let s = ref (integer r) in
+  let xk = integer r in let x0 = integer r in let jit = integer r in let yk = integer r in
+  let p1 = integer r in let p2 = integer r in let ym = integer r in
+  let next () = s := (!s * 1103515245 + 12345) land 0x7fffffff; !s lsr 16 in
+  let ux = Float.ldexp 1.0 xk and uy = Float.ldexp 1.0 ym in
+  let xs = Array.make n 0.0 and ys = Array.make n 0.0 in
+  for i = 0 to n - 1 do
+    let j = if jit <> 0 then next () mod 7 else 0 in
+    xs.(i) <- float_of_int (x0 + 8 * i + j) *. ux
+  done;
+  let y = ref p1 in
+  for i = 0 to n - 1 do
+    let v =
+      if yk = 0 then p1
+      else if yk = 1 then p1 + p2 * i
+      else if yk = 2 then (let q = next () mod (2 * p2 + 1) in p1 + q - p2)
+      else if yk = 3 then ((if i > 0 then (let q = next () mod (2 * p2 + 1) in y := !y + q - p2)); !y)
+      else if yk = 4 then p1 + p2 * (if i mod 16 < 8 then i mod 16 else 16 - i mod 16)
+      else p1 + (if i = p2 then 1000 else 0) in
+    ys.(i) <- float_of_int v *. uy
+  done;
+  (xs, ys)
+
+(* A table of 10^5 points is walked window by window: the Steffen coefficients of a segment depend on the two tabulated points on either
+   side of it only, so the object constructed (extracted [construct]) from the points lo .. hi has, on its inner segments, the coefficients
+   of the whole table; at the two ends of the table the window ends there as well, so the one-sided formulas see the same points.
+   The loops of Integrate and Local_Minimum/Maximum are resumed from window to window with the running value
+   (C08_integrate_loop_split, C08_knot_scan_split); every number is computed by the extracted functions. *)
+let wsz = 12
+type big = { bn : int; bx : float array; by : float array; mutable bpre : float; wins : float itab option array }
+let big_make xs ys = let n = Array.length xs in { bn = n; bx = xs; by = ys; bpre = 1.0; wins = Array.make ((n - 2) / wsz + 1) None }
+let wlo w = max 0 (w * wsz - 2)
+let wobj b w =
+  let ob = match b.wins.(w) with
+    | Some ob -> ob
+    | None ->
+        let lo = wlo w and hi = min (b.bn - 1) ((w + 1) * wsz + 2) in
+        let sl a = Array.to_list (Array.sub a lo (hi - lo + 1)) in
+        let ob = unres (construct fops (sl b.bx) (sl b.by) (-1.0) (-1.0)) in
+        b.wins.(w) <- Some ob; ob in
+  set_prefactor ob b.bpre
+(* the window to ask: the one holding the largest j <= n-2 with x_j <= x (plain search on the array; the extracted locate then runs on the window) *)
+let seg_guess b x =
+  if not (x >= b.bx.(0)) then 0 else begin
+    let lo = ref 0 and hi = ref (b.bn - 1) in
+    while !hi - !lo > 1 do let m = (!lo + !hi) / 2 in if b.bx.(m) <= x then lo := m else hi := m done; !lo end
+let big_locate b x = let w = seg_guess b x / wsz in wlo w + int_of_nat (unres (locate fops (wobj b w) x))
+let big_interpolate b x = unres (interpolate fops (wobj b (seg_guess b x / wsz)) x)
+let big_derivative b x k = unres (derivative fops (wobj b (seg_guess b x / wsz)) x (z_of_int k))
+let big_integrate b x_1 x_2 =
+  let swap = x_1 > x_2 in
+  let x1 = if swap then x_2 else x_1 and x2 = if swap then x_1 else x_2 in
+  let sign = if swap then -1.0 else 1.0 in
+  let i1 = big_locate b x1 in let i2 = big_locate b x2 in
+  let acc = ref 0.0 in
+  for w = i1 / wsz to i2 / wsz do
+    let g0 = max i1 (w * wsz) and g1 = min i2 ((w + 1) * wsz - 1) in
+    let cnt = g1 - g0 + 1 and lo = wlo w in
+    let xl = if g0 = i1 then x1 else b.bx.(g0) in
+    let li2 = if g1 = i2 then i2 - lo else g0 - lo + cnt in
+    acc := unres (integrate_loop fops (wobj b w) xl x2 (nat_of_int (g0 - lo)) (nat_of_int li2) (nat_of_int cnt) O !acc)
+  done;
+  sign *. !acc
+let big_local pick b x_1 x_2 =
+  if x_2 < x_1 then raise (Stop "EXIT");
+  let fl = big_interpolate b x_1 in let fr = big_interpolate b x_2 in
+  let i1 = big_locate b x_1 in let i2 = big_locate b x_2 in
+  let m = ref (pick fl fr) in
+  let q = ref i1 in
+  while !q <= i2 + 1 do
+    let q1 = min (i2 + 1) (!q + 63) in
+    let sl a = Array.to_list (Array.sub a !q (q1 - !q + 1)) in
+    m := unres (knot_scan fops pick (skeleton fops (sl b.bx) (sl b.by) b.bpre) x_1 x_2 (nat_of_int (q1 - !q + 1)) O !m);
+    q := q1 + 1
+  done;
+  !m
+let opbig r b w =
+  let f x = big_interpolate b x in
+  let integ = big_integrate b in
+  let lmin = big_local (nmin fops) b and lmax = big_local (nmax fops) b in
+  let skel () = skeleton fops (Array.to_list b.bx) (Array.to_list b.by) b.bpre in
+  let gmin () = unres (global_minimum fops (skel ())) and gmax () = unres (global_maximum fops (skel ())) in
+  let xa = b.bx in
+  match w with
+  | "P" -> b.bpre <- num r
+  | "X" -> let c = num r in b.bpre <- b.bpre *. c
+  | "I" -> put_f (f (num r))
+  | "D" -> let k = integer r in let x = num r in put_f (big_derivative b x k)
+  | "N" -> let a = num r in let c = num r in put_f (integ a c)
+  | "m" -> let a = num r in let c = num r in put_f (lmin a c)
+  | "M" -> let a = num r in let c = num r in put_f (lmax a c)
+  | "g" -> put_f (gmin ())
+  | "G" -> put_f (gmax ())
+  | "E" -> let a = num r in let c = num r in let n = integer r in
+      put_f (lmin a c); put_f (lmax a c);
+      for k = 0 to n do put_f (f (if k = n then c else a +. (c -. a) *. float_of_int k /. float_of_int n)) done
+  | "Z" -> let n = integer r in
+      put_f (gmin ()); put_f (gmax ());
+      let na = Array.length xa in
+      let a = xa.(0) and c = xa.(na - 1) in
+      for k = 0 to n do put_f (f (if k = n then c else a +. (c -. a) *. float_of_int k /. float_of_int n)) done;
+      put_f (f (a -. 0.5 *. (1e-2 *. (xa.(1) -. xa.(0)))));
+      put_f (f (c +. 0.5 *. (1e-2 *. (xa.(na - 1) -. xa.(na - 2)))))
+  | "W" -> let a = num r in let c = num r in
+      put_f (integ a c); put_f (integ c a);
+      let lo = Float.min a c and hi = Float.max a c in
+      let sum = ref 0.0 and u = ref lo in
+      let piece v =
+        let v0 = f (!u +. (v -. !u) *. List.nth g3 0) in let v1 = f (!u +. (v -. !u) *. List.nth g3 1) in let v2 = f (!u +. (v -. !u) *. List.nth g3 2) in
+        sum := !sum +. (v -. !u) *. (5.0 *. v0 +. 8.0 *. v1 +. 5.0 *. v2) /. 18.0; u := v in
+      Array.iter (fun x -> if x > lo && x < hi then piece x) xa;
+      piece hi;
+      put_f !sum
+  | "A" -> let a = num r in let c = num r in let e = num r in
+      put_f (integ a c); put_f (integ c e); put_f (integ a e)
+  | "B" -> let a = num r in let c = num r in
+      put_f (integ a c); put_f (lmin a c); put_f (lmax a c)
+  | "U" -> let a = num r in let x = num r in let d = num r in
+      put_f (integ a (x +. d)); put_f (integ a (x -. d)); put_f (f x); put_f (big_derivative b x 2)
+  | q -> failwith ("unknown op " ^ q)
 
 (* the abscissae of a data table as the harness computes them for the sampling grids: sorted, duplicates removed *)
 let column rows k = List.filter_map (fun row -> List.nth_opt row k) rows
@@ -104,6 +265,31 @@ let handler r =
     | "z2" ->
         let o = ref (unres (construct2_default fops)) in
         run2 r o [| -1.0; 0.0; 1.0 |] [| -1.0; 0.0; 1.0 |]
+    | "s1" | "r1" ->
+        let nt = integer r in
+        let tabs = Array.init nt (fun _ ->
+          let kind = word r in let xd = num r in let fd = num r in
+          if kind = "L" then begin
+            let xs = list r in let ys = list r in
+            ((fun () -> unres (construct fops xs ys xd fd)), Array.of_list (scaled xd xs)) end
+          else begin
+            let rows = table r in
+            ((fun () -> unres (construct_rows fops rows xd fd)), Array.of_list (scaled xd (column rows 0))) end) in
+        session r (Array.map fst tabs) (Array.map snd tabs) op1
+    | "s2" | "r2" ->
+        let nt = integer r in
+        let tabs = Array.init nt (fun _ ->
+          let xd = num r in let yd = num r in let fd = num r in
+          let xs = list r in let ys = list r in let ft = table r in
+          ((fun () -> unres (construct2 fops xs ys ft xd yd fd)), (Array.of_list (scaled xd xs), Array.of_list (scaled yd ys)))) in
+        session r (Array.map fst tabs) (Array.map snd tabs) (fun r o (xa, ya) w -> op2 r o xa ya w)
+    | "b1" | "k1" ->
+        let xd = num r in let fd = num r in
+        let (xs, ys) = rule_table r in
+        let sc dim a = if dim > 0.0 then Array.map (fun v -> v *. dim) a else a in
+        let b = big_make (sc xd xs) (sc fd ys) in
+        let nq = integer r in
+        for _ = 1 to nq do opbig r b (word r) done
     | o -> put_w ("MODELERR unknown_op_" ^ o)
   with Stop s -> Buffer.clear buf; first := true; put_w s
 
